@@ -9,6 +9,7 @@ import C02 as _c02
 ID = 'C03'
 MODEL_ID = 'ARGS'
 HARNESS = A.HARNESS
+INTERNAL_COMPARABLE = False   # behind '##' the harness prints exception class / texts, the driver a note: never equal
 RULE = ('a case = random configuration of 3-8 arguments (so that most lines leave several arguments, checks, formats, '
         'constraints and hidden / deprecated definitions unused) + a valid abstract line in which requiring / excluding '
         'arguments stand before the arguments they refer to + one legal spelling; the property demands acceptance '
